@@ -118,6 +118,8 @@ enum Phase {
 }
 
 pub struct ReplExec {
+    /// A violation met during the set-up rounds; reported by `finish`.
+    pub setup_violation: Option<Violation>,
     pub sim: Sim,
     round: usize,
     phase: Phase,
@@ -597,6 +599,7 @@ impl Scenario for ReplCell {
             observed_views: Vec::new(),
             c11_baseline: BTreeMap::new(),
             setup_done: false,
+            setup_violation: None,
             split_msgs: vec![],
             split_tick: 0,
             split_versions: BTreeMap::new(),
@@ -616,8 +619,11 @@ impl Scenario for ReplCell {
             self.lockstep_round(&mut x, false)?;
             Ok(())
         })();
-        if let Err(v) = r {
-            panic!("cell {}: violation during set-up: {} {}", self.name, v.oracle, v.detail);
+        if let Err(mut v) = r {
+            // a violation before the first choice point ends the execution with that verdict
+            v.detail = format!("during the cell's set-up (lock-step, before the first operation): {}", v.detail);
+            x.setup_violation = Some(v);
+            return x;
         }
         x.sim.steps.clear();
         x.states.clear();
@@ -635,6 +641,9 @@ impl Scenario for ReplCell {
     }
 
     fn next(&self, x: &mut ReplExec) -> Option<ChoicePoint> {
+        if x.setup_violation.is_some() {
+            return None;
+        }
         loop {
             match x.phase {
                 Phase::Op(i) => {
@@ -825,6 +834,9 @@ impl Scenario for ReplCell {
     }
 
     fn finish(&self, x: &mut ReplExec) -> Result<(), Violation> {
+        if let Some(v) = x.setup_violation.take() {
+            return Err(v);
+        }
         x.sim.note("closure: lock-step rounds with ticks, everything delivered");
         for _ in 0..self.closure_rounds {
             self.lockstep_round(x, true)?;
